@@ -183,6 +183,20 @@ pub fn kh_table_pieces<R: KhRing>(l: &Link, reduced: bool, cfg: &BuildCfg) -> Ta
     table_of(&cb.homology())
 }
 
+/// route C: the table assembled column by column from windows of the complex: column i is read off the homology of
+/// the bigraded pieces of `KhComplex::truncated(i-1 ..= i+1)`
+pub fn kh_table_windowed<R: KhRing>(l: &Link, reduced: bool) -> Table where for<'x> &'x R: EucRingOps<R> {
+    let c = build_complex::<R>(l, &R::from_i(0), &R::from_i(0), reduced, &BuildCfg::default_cfg());
+    let hr = c.h_range();
+    let mut out = Table::new();
+    for i in hr {
+        let w = c.truncated(i - 1..=i + 1).into_bigraded();
+        let t = table_of(&w.homology());
+        for (k, v) in t { if k.0 == i as i64 { out.insert(k, v); } }
+    }
+    out
+}
+
 /// route B: total homology split by the q-degree of each generator
 pub fn kh_table_total<R: KhRing>(l: &Link, reduced: bool, cfg: &BuildCfg) -> Table where for<'x> &'x R: EucRingOps<R> {
     let c = build_complex::<R>(l, &R::from_i(0), &R::from_i(0), reduced, cfg);
